@@ -4,10 +4,10 @@ From Coq Require Import List Arith Bool Lia.
 Import ListNotations.
 Require Import MayV.Sync.ChanMpmcModel.
 
-Lemma reach_run f g l : forall s, Reach f g s -> Reach f g (run f g s l).
+Lemma reach_run f g h l : forall s, Reach f g h s -> Reach f g h (run f g h s l).
 Proof.
   induction l as [|a l IH]; cbn [run]; intros s Hr; [exact Hr|].
-  destruct (step f g s a) eqn:E; [apply IH; eapply RS; eauto | apply IH; exact Hr].
+  destruct (step f g h s a) eqn:E; [apply IH; eapply RS; eauto | apply IH; exact Hr].
 Qed.
 
 Definition from (a : nat) (v : val) : bool := Nat.eqb (fst v) a.
@@ -15,7 +15,7 @@ Definition from (a : nat) (v : val) : bool := Nat.eqb (fst v) a.
 Definition g1of (s : st) : nat :=
   match dropper s with Some a => match sp (Sd s a) with G1 => 1 | _ => 0 end | None => 0 end.
 Definition inrep (p : rpc) : bool := match p with Y3s | Y4s | Y3n | Y4n => true | _ => false end.
-Definition rbusy (p : rpc) : bool := match p with Y0 | Y1 | W0 | WB | Y2 | Y3s | Y4s | Y3n | Y4n | XA | X0 => true | _ => false end.
+Definition rbusy (p : rpc) : bool := match p with Y0 | Y1 | Y0b | W0 | WB | Y2 | Y3s | Y4s | Y3n | Y4n | XA | X0 => true | _ => false end.
 Definition sbusy (p : spc) : bool := match p with M0 | M1 | M2 | MA | MS => true | _ => false end.
 
 Definition rinv (s : st) (r : nat) : Prop :=
@@ -26,12 +26,13 @@ Definition rinv (s : st) (r : nat) : Prop :=
   (rbusy (rp x) = true -> rst x = Alive) /\
   (rst x = Alive <-> In r (liver s)) /\
   (rst x = Unborn -> rp x = YIdle) /\
-  (rp x = Y3n \/ rp x = Y4n \/ rp x = Y4s -> txp s = 0) /\
+  (rp x = Y3n \/ rp x = Y4n \/ rp x = Y4s \/ rp x = Y0b -> txp s = 0) /\
   rp x <> RPanic /\
   (rdead x = true -> txp s = 0 /\ rp x <> W0 /\ rp x <> WB /\
                      (rp x = YIdle -> match rres x with REmpty | RTimeout => False | _ => True end)) /\
   (rp x = YIdle -> rres x = RDisc -> txp s = 0) /\
-  (rp x = X1 -> rxp s = 0).
+  (rp x = X1 -> rxp s = 0) /\
+  (rp x = Y3n \/ rp x = Y4n -> q s = []).
 
 Definition sinv (s : st) (a : nat) : Prop :=
   let y := Sd s a in
@@ -157,7 +158,8 @@ Lemma inv_init : Inv (init).
 Proof.
   constructor; cbn; try tauto; try discriminate; try (intros; discriminate); auto; try lia.
   - intros r. unfold rinv; cbn. destruct (Nat.eqb_spec r 0); cbn; repeat split; try discriminate; try tauto; try lia; auto;
-      try (intros [?|[]]; congruence); try (intros [?|[? ?]]; discriminate); try (intros [? ?]; discriminate).
+      try (intros [?|[]]; congruence); try (intros [?|[? ?]]; discriminate); try (intros [? ?]; discriminate);
+      try (intros [?|[?|[?|?]]]; discriminate); try (intros [?|?]; discriminate).
   - intros a. unfold sinv; cbn. destruct (Nat.eqb_spec a 0); cbn; repeat split; try discriminate; try tauto; try lia; auto;
       try (intros [?|[]]; congruence); try (intros [?|?]; discriminate).
   - repeat split; repeat constructor; intros [].
